@@ -11,7 +11,7 @@
 #include <stdlib.h>
 
 typedef struct S { long a; int b; int c; } S;
-typedef struct L { long a[4]; } L;
+typedef struct L { long a[3]; } L;
 #define DECL(P) \
   extern int P##gi[8]; extern long P##gl[8]; extern float P##gf[8]; extern double P##gd[8]; extern long double P##ge[8]; \
   extern int *P##gp[8]; extern S P##gs[8]; extern L P##gL[8]; extern int P##gc, P##gn, P##gna; \
